@@ -3,23 +3,30 @@
 Three input spaces:
 
 * `space(tier)`  - EXHAUSTIVE enumeration of control *skeletons* up to a size bound, rendered to concrete programs.
-      A skeleton is a statement tree over the leaf alphabet
+      A skeleton is a statement tree over a leaf alphabet
           P1 (a one-op plain statement)   P2 (a plain statement that compiles to several ops)   T (return/end/hold)
           @x  jump @x  call @x            continue  break_loop (inside loops)   break (inside cases)
-      and the blocks  if/elseif/else (each branch with or without `not`, 1..c conditions joined by `||`, possibly
+      and the blocks  if/elseif/else (each branch with or without `not`, 1..C conditions joined by `||`, possibly
       empty bodies), switch (cases and a default in any position, empty bodies = grouped cases / fall-through),
       forever, while, while not, for.
-      size(statement) = 1 + size of its bodies + 1 per elseif/else/case/default + 1 per additional `||` condition.
-      Every skeleton with size <= S, at most F statements per block and F branches/cases per block statement and
-      nesting depth <= D is produced exactly once (the space is an indexable sequence, so it is shardable by
-      index modulo the number of workers).
+      size(block statement) = 1 + size of its bodies + 1 per elseif/else/case/default + 1 per additional `||`
+      condition; size(leaf) = 1  (`skeleton_size`).
+      A *family* (see TIERS) fixes the leaf alphabet, the allowed block kinds, the maximal number of statements per
+      block (fan-out) and of branches/cases per block statement (arms), the nesting depth D and the size bound S; every
+      skeleton of the family with size <= S is produced exactly once.  The families are indexable sequences (`G`), so
+      the space is shardable by index modulo the number of workers.  `general` has the full alphabet at a small size;
+      the focused families reach the sizes at which shape-dependent compiler defects live (a switch with three
+      non-empty cases has size 7).  Families whose alphabet has `jump @x` but no label leaf get the missing `@x;`
+      added in front of / behind the routine body.
       Rendering is deterministic: leaves and headers take their concrete form round-robin from pools that contain every
       condition form, switch header, case header, assignment form, argument kind, with-block / inline context,
-      message switch and macro call of the language, with running numbers so that all ops are distinguishable.
-  Further exhaustive families: several routines with every routine kind (`multi`), and `forms` = every condition /
-  switch header / case header / assignment / context form in every header position.
-* `random_programs(seed, n)` - seeded random programs of size <= 40.
-* `flat_space(tier)` - exactly the quantifier of property C13 (flat structured programs).
+      message switch and macro call of the language; the round-robin of program i of a family starts at phase i, so
+      over a family every form appears in every position; all ops carry running numbers and are distinguishable.
+  Further exhaustive families: several routines with every routine kind / aliases / coroutines / cross-routine jumps
+  (`multi2`, `multi3`), and `forms` = every condition / switch header / case header / assignment / context form in
+  every header position, macros (substitution, return, private labels, nesting).
+* `random_programs(seed, n)` - seeded random programs of size <= 40 (program i depends only on (seed, i)).
+* `flat_space(tier)` / `flat_programs` - exactly the quantifier of property C13 (flat structured programs).
 
 Statically invalid skeletons (jump to an undefined label, a label defined twice, a routine consisting only of labels)
 are filtered by `valid()`; they are not programs.  Programs whose label/jump graph has an op-free cycle are *not*
@@ -402,7 +409,9 @@ class Renderer:
             lambda: A.CondBit(False, C("PERFORMANCE_PROGRESS_LIST"), n % 8),
             lambda: A.CondSpecial(False, "variation"),
             lambda: A.CondBit(True, C("PERFORMANCE_PROGRESS_LIST"), n % 8),
-            lambda: A.CondOperation(A.Op(("BranchSum", "BranchExecuteSub")[n % 2], (I(n), C(f"X{n}")))),
+            # operations as conditions with the arity of the game's opcodes (the decompiler finds the jump target by the
+            # parameter index of OPS_WITH_JUMP_TO_MEM_OFFSET, so other arities are not decompilable)
+            lambda: A.CondOperation(A.Op("BranchSum", (I(n), C(f"X{n}"), I(n % 3))) if n % 2 else A.Op("BranchExecuteSub", (C(f"X{n}"),))),
             lambda: A.CondSpecial(True, "debug"),
         )[j]()
 
@@ -607,7 +616,9 @@ def _forms() -> list:
     for kind in ("debug", "edit", "variation"):
         conds += [A.CondSpecial(False, kind), A.CondSpecial(True, kind)]
     conds += [A.CondBit(False, I(5), 2), A.CondBit(False, C("PERFORMANCE_PROGRESS_LIST"), 0)]
-    conds += [A.CondOperation(A.Op(n, (I(1), I(2)))) for n in ("Branch", "BranchBit", "BranchSum", "BranchExecuteSub")]
+    conds += [A.CondOperation(A.Op(n, (I(1), I(2)))) for n in ("Branch", "BranchBit")]
+    conds += [A.CondOperation(A.Op("BranchSum", (I(1), I(2), I(3)))), A.CondOperation(A.Op("BranchExecuteSub", (I(1),)))]
+    conds += [A.CondOperation(A.Op("BranchSum", (I(1),))), A.CondOperation(A.Op("BranchValue", (C("$V"), I(3), I(4))))]
     a, b, c = A.Op("a"), A.Op("b"), A.Op("c")
     for i, cd in enumerate(conds):
         pos = i % 8
